@@ -151,6 +151,9 @@ struct Net {
 	/// set after a restart from a snapshot the monitors have overtaken: LDK closes those channels, the
 	/// rest of the script (on-chain resolution) is outside this engine
 	ended: bool,
+	/// payment ids accepted so far; set once an id was accepted a second time
+	accepted_ids: Vec<u64>,
+	id_reused: bool,
 }
 
 fn is_resolution(k: &str) -> bool {
@@ -609,6 +612,7 @@ impl Net {
 				(self.nodes[from].node.send_payment(hash, RecipientOnionFields::secret_only(secret, amt), pid, rp, Retry::Attempts(retries)), sreg)
 			};
 			let r = match &res { Ok(()) => "ok", Err(RetryableSendFailure::DuplicatePayment) => "dup", Err(_) => "err" };
+			if res.is_ok() { if self.accepted_ids.contains(&id) { self.id_reused = true; } else { self.accepted_ids.push(id); } }
 			let rec = json!({"ev":"send","node":from,"pid":id,"hash":h,"dst":to,"auto":true,"keysend":keysend,"amt":amt,"total":amt,
 				"sreg": sreg, "parts": [{"path": [], "amt": amt, "fee": 0, "cltv": 0}], "res": r, "height": self.height()});
 			self.log.lock().unwrap().insert(mark, rec);
@@ -645,6 +649,7 @@ impl Net {
 		let mark = self.log.lock().unwrap().len();
 		let res = self.nodes[from].node.send_payment_with_route(route, hash, onion, pid);
 		let r = match &res { Ok(()) => "ok", Err(RetryableSendFailure::DuplicatePayment) => "dup", Err(_) => "err" };
+		if res.is_ok() { if self.accepted_ids.contains(&id) { self.id_reused = true; } else { self.accepted_ids.push(id); } }
 		let rec = json!({"ev":"send","node":from,"pid":id,"hash":h,"dst":dst,"auto":false,"keysend":false,"amt":sum,"total":total,
 			"sreg": sreg, "parts": parts, "res": r, "height": self.height()});
 		self.log.lock().unwrap().insert(mark, rec);
@@ -708,9 +713,11 @@ impl Net {
 		let stale = at != now;
 		if stale && mode != "stale" { return false; }
 		if !stale && mode == "stale" { return false; }
-		// KNOWN finding (see checks/c03.py): a stale snapshot taken while a payment's HTLC waited in a
-		// holding cell makes LDK report the payment failed although the HTLC was sent later
-		if stale && !idle && !allow_unclean { return false; }
+		// KNOWN findings (see checks/c03.py): a stale snapshot taken while a payment's HTLC waited in a
+		// holding cell makes LDK report the payment failed although the HTLC was sent later; a stale
+		// snapshot that still holds an earlier, abandoned use of a payment id cannot take up the HTLCs of
+		// a later use of that id
+		if stale && (!idle || self.id_reused) && !allow_unclean { return false; }
 		// the process dies: its connections and everything queued on them are gone
 		for j in 0..self.nodes.len() {
 			if j != i && *self.connected.get(&Self::key(i, j)).unwrap_or(&false) {
@@ -993,7 +1000,7 @@ fn build_net(run: u64, seed: u64, cfg: &Value, log: &Log) -> Net {
 	let mut net = Net {
 		nodes, cfgs, persisters, queues: HashMap::new(), connected, log: log.clone(), chans, hashes: Vec::new(),
 		regs: HashMap::new(), hold: vec![false; n], saves: vec![None; n], last_recent: vec![json!([]); n], run, seed,
-		time0, time: time0, executed: 0, skipped: 0, restarts: 0, closed_seen: false, claimable_seen: Vec::new(), deadlines: HashMap::new(), ended: false,
+		time0, time: time0, executed: 0, skipped: 0, restarts: 0, closed_seen: false, claimable_seen: Vec::new(), deadlines: HashMap::new(), ended: false, accepted_ids: Vec::new(), id_reused: false,
 	};
 	let _ = net.cfgs;
 	let c = lightning::verif::consts();
